@@ -23,16 +23,17 @@ def main(payload):
 '''
 
 
-def candidates(rng, entry, n_extra):
+def candidates(rng, entry, n_extra, base=None):
     """parameter sets around every guard: defaults, each parameter pushed to 0, negative, boundary values of the
     comparisons it takes part in, and random pairs"""
     params = entry['params']
-    base = {}
-    for p in params:
-        d = entry['defaults'].get(p)
-        if d is None:
-            return []
-        base[p] = float(eval_expr(G.expr_from_json(d), {}))
+    if base is None:
+        base = {}
+        for p in params:
+            d = entry['defaults'].get(p)
+            if d is None:
+                return []
+            base[p] = float(eval_expr(G.expr_from_json(d), {}))
     cands = [dict(base)]
     specials = [0.0, -1.0, 1.0, 2.0, 3.0, 4.0, 0.5, -0.5]
     for p in params:
@@ -118,8 +119,83 @@ def init_corr(rng, tier, prop):
 _last = {}
 
 
+def _safe(f, p):
+    try:
+        return bool(f({k: float(v) for k, v in p.items()}))
+    except Exception:
+        return False
+
+
 def init_oracle(rng, tier, reasons):
-    return _last.get('dis', [])
+    """failing-input search: documented restriction (Python mirror of the spec) against the real constructors"""
+    fails = list(_last.get('dis', []))
+    import restrictions as RS
+    js = json.load(open(os.path.join(H.COQ, 'gen', 'Init.json')))
+    cases, meta = [], []
+    for name, e in js.items():
+        if name.startswith('_') or e['class'] not in RS.DOC_OK or e['always_raises']:
+            continue
+        cs = candidates(rng, e, 60)
+        if not cs:
+            continue
+        if cs and not _safe(RS.DOC_OK[e['class']], cs[0]):
+            # the class defaults are themselves inadmissible (e.g. xnodes = 0): look for an admissible base first
+            for _ in range(3000):
+                b = {k: (rng.choice([v, 1.0, 2.0, 3.0, 0.5, -1.0, 10.0]) if k != 'geometry' else rng.choice([1, 2, 3])) for k, v in cs[0].items()}
+                if _safe(RS.DOC_OK[e['class']], b):
+                    cs = candidates(rng, e, 60, base={k: float(v) for k, v in b.items()})
+                    break
+        # angle-like parameters: also try values around pi/6, pi/3
+        for c in list(cs[:1]):
+            for p in e['params']:
+                if p.startswith('omega'):
+                    for v in (0.5236, 1.0472, 1.2, 0.3):
+                        for rd in (0.8, 1.2, 1.5, 2.5, 4.0):
+                            c2 = dict(c); c2[p] = v
+                            if 'r_d' in c2:
+                                c2['r_d'] = rd * c2.get('R', 1.0)
+                            cs.append(c2)
+        # cheap search on the regenerated guard model: parameter sets on which the guard chain and the documented
+        # restriction disagree (these are then confirmed on the real constructor)
+        b0 = cs[0]
+        cond = G.expr_from_json(e['init_ok'])
+        found = 0
+        for _ in range(30000):
+            c2 = {}
+            for k, v in b0.items():
+                u = rng.random()
+                if k in ('geometry', 'IC') or (float(v).is_integer() and abs(float(v)) <= 3 and u < 0.5):
+                    c2[k] = rng.choice([1, 2, 3]) if u < 0.9 else rng.choice([0, 4, -1])
+                elif u < 0.3:
+                    c2[k] = v
+                elif u < 0.85:
+                    c2[k] = float(v) * rng.uniform(0.2, 3.0)
+                else:
+                    c2[k] = rng.choice([0.0, 1.0, 2.0, 3.0, -1.0, 0.5])
+            try:
+                m = eval_cond(cond, {k: float(v) for k, v in c2.items()})
+            except (ZeroDivisionError, ValueError, OverflowError):
+                continue
+            if m != _safe(RS.DOC_OK[e['class']], c2):
+                cs.append(c2)
+                found += 1
+                if found >= 20:
+                    break
+        for c in cs:
+            cases.append({'module': e['module'], 'class': e['class'], 'params': c})
+            meta.append((e, c))
+    res = H.run_real(SCRIPT, cases, timeout=1800)
+    for (e, c), r in zip(meta, res):
+        try:
+            ok = RS.DOC_OK[e['class']]({k: float(v) for k, v in c.items()})
+        except Exception:
+            continue
+        if ok and r is not None:
+            fails.append({'class': '%s.%s' % (e['module'], e['class']), 'params': c, 'documented': 'admissible', 'real': 'raised ' + r})
+        if (not ok) and r != 'ValueError':
+            fails.append({'class': '%s.%s' % (e['module'], e['class']), 'params': c, 'documented': 'must be rejected with ValueError',
+                          'real': 'no exception' if r is None else 'raised ' + r})
+    return fails
 
 
 UNITS = [
